@@ -218,6 +218,7 @@ STRIP = uf('py_strip', ['str'], 'str', lambda s: s.strip(), axiom=(
     _ax_strip, lambda a, r: not r.startswith(' ') and not r.endswith(' ') and r in a[0] and
     (not _re.fullmatch(r'[!-~]*', a[0]) or r == a[0]), [[''], [' a '], ['a b'], ['  '], ['\tx\n']]))
 TITLE = uf('py_title', ['str'], 'str', lambda s: s.title())
+CASEFOLD = uf('py_casefold', ['str'], 'str', lambda s: s.casefold())        # NOT lower(): 'ß'.casefold() == 'ss'
 STR_REAL = uf('py_str_float', ['real'], 'str', lambda x: str(float(x)))
 REPR_STR = uf('py_repr_str', ['str'], 'str', lambda s: repr(s))
 def _ax_int_of(args, res):
@@ -613,7 +614,7 @@ def _late_split_result():
 
 SYM_STR_METHODS = {
     'upper': lambda it, s: UPPER(s), 'lower': lambda it, s: LOWER(s), 'strip': lambda it, s, *a: _strip(s, a),
-    'title': lambda it, s: TITLE(s),
+    'title': lambda it, s: TITLE(s), 'casefold': lambda it, s: CASEFOLD(s),
     'find': str_find, 'index': str_index, 'startswith': str_startswith, 'endswith': str_endswith,
     'replace': str_replace, 'join': str_join, 'split': str_split, 'rsplit': str_rsplit, 'partition': str_partition, 'rpartition': str_rpartition,
     'zfill': lambda it, s, n: str_zfill(it, s, n),
